@@ -1396,6 +1396,7 @@ sexp sexp_add (sexp ctx, sexp a, sexp b) {
 }
 
 sexp sexp_sub (sexp ctx, sexp a, sexp b) {
+  sexp_sint_t diff;
 #if SEXP_USE_FLONUMS
   int negatep=0;
 #endif
@@ -1424,7 +1425,11 @@ sexp sexp_sub (sexp ctx, sexp a, sexp b) {
     r = sexp_type_exception(ctx, NULL, SEXP_NUMBER, b);
     break;
   case SEXP_NUM_FIX_FIX:
-    r = sexp_fx_sub(a, b);      /* VM catches this case */
+    diff = sexp_unbox_fixnum(a) - sexp_unbox_fixnum(b);
+    if ((diff < SEXP_MIN_FIXNUM) || (diff > SEXP_MAX_FIXNUM))
+      r = sexp_sub(ctx, tmp1=sexp_fixnum_to_bignum(ctx, a), b);
+    else
+      r = sexp_make_fixnum(diff);
     break;
   case SEXP_NUM_FIX_FLO:
     r = sexp_make_flonum(ctx, a==SEXP_ZERO ? -sexp_flonum_value(b) : sexp_fixnum_to_double(a)-sexp_flonum_value(b));
